@@ -550,6 +550,40 @@ func runC14(p *an.Prog, r *an.Run, tier string) {
 					if !kept {
 						bad = append(bad, an.FuncName(fn)+" builds its request with a Client created for this call only ("+p.Pos(x.Pos())+"): its counter restarts at 1 on every call")
 					}
+					// a default client is put in place only where there is none yet: replacing an existing one (the nil
+					// test inverted) restarts the counter on every call as well
+					for _, ref := range *x.Referrers() {
+						var st *ssa.Store
+						if s0, ok := ref.(*ssa.Store); ok && s0.Val == ssa.Value(x) {
+							st = s0
+						}
+						if mi, ok := ref.(*ssa.MakeInterface); ok {
+							for _, r2 := range *mi.Referrers() {
+								if s0, ok := r2.(*ssa.Store); ok && s0.Val == ssa.Value(mi) {
+									st = s0
+								}
+							}
+						}
+						if st == nil {
+							continue
+						}
+						fa, ok := st.Addr.(*ssa.FieldAddr)
+						if !ok {
+							continue
+						}
+						fld := an.FieldOf(fa)
+						okNil := false
+						for _, cr := range ctrlRels(st.Block()) {
+							for _, pair := range [][2]ssa.Value{{cr.L, cr.R}, {cr.R, cr.L}} {
+								if f2 := an.FieldOf(stripLoad(pair[0])); f2 != nil && f2 == fld && isNilValue(pair[1]) && cr.Op == token.EQL {
+									okNil = true
+								}
+							}
+						}
+						if !okNil {
+							bad = append(bad, an.FuncName(fn)+" installs a fresh Client at "+p.Pos(st.Pos())+" without the field having been found nil: an existing client (and its id counter) is replaced on every call")
+						}
+					}
 				}
 			}
 			walk(rcv)
